@@ -1091,10 +1091,17 @@ func (m *Nitro) LoadFromDisk(dir string, concurr int, callb ItemCallback) (*Snap
 	if bs, err = ioutil.ReadFile(filepath.Join(datadir, "files.json")); err != nil {
 		return nil, err
 	}
-	json.Unmarshal(bs, &files)
+	if err = json.Unmarshal(bs, &files); err != nil {
+		return nil, err
+	}
 
 	if bs, err := ioutil.ReadFile(filepath.Join(datadir, "checksums.json")); err == nil {
-		json.Unmarshal(bs, &checksums)
+		if err = json.Unmarshal(bs, &checksums); err != nil {
+			return nil, err
+		}
+		if len(checksums) != len(files) {
+			return nil, ErrCorruptSnapshot
+		}
 	} else {
 		checksums = make([]uint32, len(files))
 	}
@@ -1194,7 +1201,9 @@ func (m *Nitro) LoadFromDisk(dir string, concurr int, callb ItemCallback) (*Snap
 		deltadir := filepath.Join(dir, "delta")
 		var files []string
 		if bs, err := ioutil.ReadFile(filepath.Join(deltadir, "files.json")); err == nil {
-			json.Unmarshal(bs, &files)
+			if err = json.Unmarshal(bs, &files); err != nil {
+				return nil, err
+			}
 		}
 
 		readers := make([]FileReader, len(files))
@@ -1202,7 +1211,12 @@ func (m *Nitro) LoadFromDisk(dir string, concurr int, callb ItemCallback) (*Snap
 		writers := make([]*Writer, concurr)
 		deltaChecksums := make([]uint32, len(files))
 		if bs, err := ioutil.ReadFile(filepath.Join(deltadir, "checksums.json")); err == nil {
-			json.Unmarshal(bs, &deltaChecksums)
+			if err = json.Unmarshal(bs, &deltaChecksums); err != nil {
+				return nil, err
+			}
+			if len(deltaChecksums) != len(files) {
+				return nil, ErrCorruptSnapshot
+			}
 		}
 
 		defer func() {
